@@ -700,7 +700,7 @@ def run(tier: str, seed: int, replay=None) -> int:
     ok_spec, log = core.coq_make(["Base/Sx.vo", "Onto/RegistrySpec.vo", "Onto/RegistrySpecRun.vo"])
     rep.oblige("build:spec", ok_spec, "" if ok_spec else core.first_error(log))
     model_ok = proof_steps(rep, PROP)
-    if replay:
+    if replay and replay.get("case") is not None:
         hists = [replay["case"]]
     else:
         n = 1 if tier == "quick" else 12
@@ -714,7 +714,7 @@ def run(tier: str, seed: int, replay=None) -> int:
     rep.extra["known_finding_instances"] = inst
     rep.extra["codes"] = {str(c): list(codes.values()).count(c) for c in (0, 1, 2, 3)}
     rep.samples = [{"case": h, "impl_last": r.get("steps", [{}])[-1]} for h, r in list(zip(hists, results))[:: max(1, len(hists) // 5)]][:5]
-    if not replay:
+    if not (replay and replay.get("case") is not None):
         replay_findings(rep, PROP, model_ok, ACCEPT)
     return rep.finish()
 
